@@ -67,6 +67,7 @@ pub fn run(ctx: &Ctx) -> Outcome {
         }
     });
     util::remove_dir(&root);
+    crate::checks::extreme::lane(ctx, &mut out, "C06");
     out
 }
 
